@@ -83,7 +83,8 @@ def r131(ctx, R):
     qpkeys = set()
     for n in own_nodes(h.node):
         if isinstance(n, ast.Compare) and len(n.ops) == 1 and isinstance(
-                n.ops[0], ast.In) and src(n.comparators[0]) == 'req.GET':
+                n.ops[0], ast.In) and src(n.comparators[0]) == \
+                '%s.GET' % (h.params + [None])[0]:
             if isinstance(n.left, ast.Constant):
                 read.add(n.left.value)
             elif isinstance(n.left, ast.Name):
